@@ -43,9 +43,11 @@ def _check(case):
         c1 = select_copula(X.copy())
     except Exception as ex:
         return [('raised-' + type(ex).__name__, 'tau=%r' % exp_tau)]
-    fam = c1.copula_type.name
+    fam = getattr(getattr(c1, 'copula_type', None), 'name', type(c1).__name__)
     if fam not in case['cands']:
         probs.append(('family-not-a-candidate', 'returned %s, candidates %s, tau=%r' % (fam, case['cands'], exp_tau)))
+    if fam not in ('FRANK', 'CLAYTON', 'GUMBEL') or c1.tau is None or c1.theta is None:
+        return probs or [('family-not-a-candidate', 'returned %s without tau / theta, tau=%r' % (fam, exp_tau))]
     if abs(float(c1.tau) - exp_tau) > 1e-12:
         probs.append(('tau-is-not-kendall-tau', 'got %r expected %r' % (float(c1.tau), exp_tau)))
     th = float(c1.theta)
@@ -195,18 +197,20 @@ def run(ctx):
     ctx.rule = ('(a) the KendallFit enumeration (all permutations n<=%s, tie cases, random longer columns): TLC computes the admissible '
                 'candidate set of select_copula exactly; the real function must return a member carrying the shared Kendall tau and its own '
                 'calibration, identically on a second call with another global RNG state, on permuted rows and through the deprecated alias; '
-                '(b) recovery: samples of n=3000, 7777 and 11003 (thorough: also 5000, 12345, 20011; those above 9000 rows and a quarter of the others arrive sorted by the first column) from Clayton / Frank / Gumbel drawn by independent samplers (conditional inverse, '
+                '(b) recovery: samples of n=3000, 7777, 11003 and 24001 (thorough: also 5000, 12345, 20011, 31013; those above 9000 rows and a quarter of the others arrive sorted by the first column) from Clayton / Frank / Gumbel drawn by independent samplers (conditional inverse, '
                 'Marshall-Olkin) at tau 0.3, 0.5, 0.7, %s seeds per cell; TLC (Acceptance) requires >= 70 %% recovered per cell. '
                 '(d) samples of 6000 rows (thorough: also 12001) at tau 0.04 / 0.09 selected six times under different global generator states: one answer, generator untouched; an earlier result is not changed by later calls; (c) five sequences of 14 neighbouring data sets (n = 150..400, taus a few 1e-4 apart) selected one after the other in one process: each answer is the calibration of its own tau.  non-trivial = positive tau (more than one candidate); distinct by input') % (('6', '10') if quick else ('7', '40'))
     ctx.assumptions = ['the scoring arithmetic of select_copula is not pinned (any member of the candidate set is accepted)',
                        'recovery samplers are the harness\'s own (not the library\'s)']
     cases = get_cases(ctx, 6 if quick else 7, 4 if quick else 5, given_cases(ctx.seed + 2, 60 if quick else 500))
+    # the module of the fourth, parameterless family is imported (a user may have done so): it is not a candidate of select_copula
+    import copulas.bivariate.independence  # noqa
     with Pool(16) as pool:
         res = pool.map(_check, cases, chunksize=16)
         ns = 10 if quick else 40
-        sizes = (3000, 7777, 11003) if quick else (3000, 5000, 7777, 12345, 20011)       # n >= 3000, deliberately not round numbers only
+        sizes = (3000, 7777, 11003, 24001) if quick else (3000, 5000, 7777, 12345, 20011, 31013)       # n >= 3000, deliberately not round numbers only
         jobs = [(f, t, ctx.seed * 1000 + 17 * i + j + n, n) for f in ('CLAYTON', 'FRANK', 'GUMBEL') for j, t in enumerate((0.3, 0.5, 0.7))
-                for n in sizes for i in range(ns)]
+                for n in sizes for i in range(ns if n < 20000 else max(4, ns // 2))]
         rec = pool.map(_recover, jobs, chunksize=2)
         njobs = [(f, t, ctx.seed * 31 + i, n, 14) for i, (f, t, n) in enumerate((('FRANK', 0.45, 150), ('FRANK', 0.2, 400), ('CLAYTON', 0.5, 150),
                                                                                ('GUMBEL', 0.6, 200), ('FRANK', 0.7, 250)))]
